@@ -29,7 +29,8 @@ def main():
         if r.returncode:
             print(r.stdout)
             return 2
-    sh("git -C %s checkout -q --detach %s && git -C %s checkout -q -- . && git -C %s clean -qfd -e target" % (WT, head, WT, WT))
+    sh("git -C %s reset -q --hard && git -C %s checkout -q --detach %s && git -C %s reset -q --hard %s && git -C %s clean -qfd -e target"
+       % (WT, WT, head, WT, head, WT))
     patch = os.path.join(sd, "patch_rebased.diff")
     if not os.path.exists(patch):
         patch = os.path.join(sd, "patch.diff")
@@ -51,7 +52,7 @@ def main():
                "stderr_tail": p.stderr.splitlines()[-3:]}
         out.append(rec)
         print(json.dumps(rec))
-    sh("git -C %s checkout -q -- ." % WT)
+    sh("git -C %s reset -q --hard" % WT)
     runs_p = os.path.join(sd, "runs.json")
     runs = json.load(open(runs_p)) if os.path.exists(runs_p) else []
     runs = [r for r in runs if not any(r["check"] == o["check"] for o in out)] + out
